@@ -129,3 +129,34 @@ package dns
 
 //@ func Message.ResponseCode returns (rc)
 //@   terminates
+
+// ---------------------------------------------------------------------------
+// Encoder: what a message must satisfy for Bytes not to panic (cryptobyte's BytesOrPanic).
+// ---------------------------------------------------------------------------
+
+// labelsFit(n): every label of the name n (without its trailing dot) fits a one-byte length prefix.
+//@ pure labelsFit(n string) bool = maxPart(trimSuffixOf(cid(n), cid(".")), cid(".")) <= 255
+
+//@ func Message.Bytes returns (out)
+//@   requires[names] forall(i, 0, len(m.Question), labelsFit(m.Question[i].Name), trig(m.Question[i]))
+//@   requires[no-records] len(m.Answer) == 0 && len(m.Authority) == 0
+//@   terminates
+//@   loop 1 "range m.Question"
+//@     invariant !berr(s)
+//@   loop 2 "range parts"
+//@     invariant !berr(s)
+
+//@ func Message.AddPadding
+//@   requires m != nil
+//@   requires[names] forall(i, 0, len(m.Question), labelsFit(m.Question[i].Name), trig(m.Question[i]))
+//@   requires[no-records] len(m.Answer) == 0 && len(m.Authority) == 0
+//@   requires[typed] forall(i, 0, len(m.Additional), typedRR(m.Additional[i]))
+//@   modifies m.Additional
+//@   terminates
+//@   ensures[F:question-kept] m.Question == old(m.Question) && len(m.Answer) == 0 && len(m.Authority) == 0
+
+// RRType maps a type name to its number through the package's table; the result is a function of the name's contents.
+//@ ghostfn rrTypeOf(name int) int
+//@ func RRType returns (id)
+//@   trusted
+//@   ensures int(id) == rrTypeOf(cid(t))
